@@ -50,7 +50,11 @@ fn eitem(id: u16) -> Option<EnumItem> {
 
 fn silence_panics() {
     static ONCE: std::sync::Once = std::sync::Once::new();
-    ONCE.call_once(|| std::panic::set_hook(Box::new(|_| {})));
+    ONCE.call_once(|| {
+        if std::env::var_os("AVH_DEBUG").is_none() {
+            std::panic::set_hook(Box::new(|_| {}));
+        }
+    });
 }
 
 fn errs(e: &AutosarDataError) -> String {
